@@ -336,14 +336,14 @@ func mnHasAddPath(m *bgp.BGPMessage) bool {
 	return false
 }
 
-func mnOpenInfo(m *bgp.BGPMessage) map[string]any {
+func (w *mnWorld) openInfo(m *bgp.BGPMessage) map[string]any {
 	o := map[string]any{"as": 0, "id": "none", "as4": 0}
 	if m == nil || m.Header.Type != bgp.BGP_MSG_OPEN {
 		return o
 	}
 	op := m.Body.(*bgp.BGPOpen)
 	o["as"] = int(op.MyAS)
-	o["id"] = op.ID.String()
+	o["id"] = w.ridName(op.ID.String())
 	for _, p := range op.OptParams {
 		if c, ok := p.(*bgp.OptionParameterCapability); ok {
 			for _, cc := range c.Capability {
@@ -420,8 +420,8 @@ func (w *mnWorld) projectBmp(tok []byte) map[string]any {
 	case *bmp.BMPPeerUpNotification:
 		o["t"] = "up"
 		o["laddr"] = w.addrName(b.LocalAddress.String())
-		o["sent"] = mnOpenInfo(b.SentOpenMsg)
-		o["recv"] = mnOpenInfo(b.ReceivedOpenMsg)
+		o["sent"] = w.openInfo(b.SentOpenMsg)
+		o["recv"] = w.openInfo(b.ReceivedOpenMsg)
 		o["ninfo"] = len(b.Info)
 		w.bmpCaps[fmt.Sprintf("%d/%s", ph.PeerType, ph.PeerAddress)] = mnHasAddPath(b.SentOpenMsg) && mnHasAddPath(b.ReceivedOpenMsg)
 	case *bmp.BMPPeerDownNotification:
@@ -499,7 +499,13 @@ func (w *mnWorld) takeTableDumps() []any {
 		m, err := mrt.ParseBody(tok[mrt.MRT_COMMON_HEADER_LEN:], h)
 		if err != nil {
 			rec["perr"] = err.Error()
-			if cur != nil {
+			if h.Type == mrt.TABLE_DUMPv2 && mrt.MRTSubTypeTableDumpv2(h.SubType) == mrt.PEER_INDEX_TABLE {
+				// a peer index table that does not parse back still opens a group: the RIB records that
+				// follow it are judged on their own
+				cur = map[string]any{"collector": "none", "peers": []any{}, "ribs": []any{}, "bad": []any{}, "piterr": err.Error(),
+					"hlenok": rec["declen"] == rec["toklen"]}
+				out = append(out, cur)
+			} else if cur != nil {
 				cur["bad"] = append(cur["bad"].([]any), rec)
 			} else {
 				out = append(out, map[string]any{"bad": rec})
@@ -512,7 +518,7 @@ func (w *mnWorld) takeTableDumps() []any {
 			for _, p := range b.Peers {
 				peers = append(peers, map[string]any{"peer": w.addrName(p.IpAddress.String()), "rid": w.ridName(p.BgpId.String()), "as": int(p.AS)})
 			}
-			cur = map[string]any{"collector": w.ridName(b.CollectorBgpId.String()), "peers": peers, "ribs": []any{}, "bad": []any{},
+			cur = map[string]any{"collector": w.ridName(b.CollectorBgpId.String()), "peers": peers, "ribs": []any{}, "bad": []any{}, "piterr": "",
 				"hlenok": rec["declen"] == rec["toklen"]}
 			out = append(out, cur)
 		case *mrt.Rib:
